@@ -443,8 +443,13 @@ c.skip_cross = True
 c.inline = True
 c.inline_callees = True
 c.wire = lambda bound, ghosts: bound.__setitem__("descriptor", ghosts["desc"].f["d"])
-c.stubs = {"pdfminer.pdffont:PDFFont._parse_bbox": _pb}
+_ra = stub("pdfminer.pdftypes:resolve_all", ["x"]); _ra.result_fn = ("resolved", lambda x: ("every-reference-inside-resolved", x))
+_ra.defaults = {"default": None}
+_ra.note = "resolve_all replaces every reference inside a container by its target (its own contract is in C12/C13)"
+c.stubs = {"pdfminer.pdffont:PDFFont._parse_bbox": _pb, "pdfminer.pdftypes:resolve_all": _ra}
 c.mod("self.*")
+c.ens("width-table-is-stored-with-every-reference-inside-it-resolved", lambda self, widths: (
+    isinstance(self.widths, tuple) and self.widths[0] == "every-reference-inside-resolved" and self.widths[1] == widths))
 
 
 def _font_init_spec(self, desc, default_width):
